@@ -177,3 +177,62 @@ func VerifC14Restart() {
 	verifrt.Assert(len(list) == n, "catalogue-size-after-restart")
 	verifrt.Reach("end")
 }
+
+// VerifC05Boot: start vs restart of the raft node. Whatever node-id list the
+// callers compute (Server.getZeroNodeIds, partition.loadRaft from the
+// allocator), a group whose log store already holds durable state must be
+// restarted from it (RestartNode), never bootstrapped again (StartNode appends
+// the bootstrap membership entries to the existing log); a fresh group with
+// peers is bootstrapped.
+func VerifC05Boot() {
+	verifrt.Preemptions(0)
+	verifrt.SchedDeterministic(true)
+	verifInstallBootHook()
+	join := verifrt.Choose("config", 3) // 0: bootstrap node, 1: DoNotJoinCluster, 2: node that joined via JoinNodes
+	mk := func() *Config {
+		c := &Config{RaftNodeId: 1, DataDir: "/verif-data", Port: "6000"}
+		switch join {
+		case 1:
+			c.DoNotJoinCluster = true
+		case 2:
+			c.JoinNodes = []string{"peer:1"}
+		}
+		return c
+	}
+	s1 := NewServer(mk())
+	if err := s1.setup(); err != nil {
+		verifrt.Assert(false, "first-start-succeeds")
+		return
+	}
+	verifrt.Quiesce()
+	if join == 0 {
+		// a dataset whose partition lives on this node: its raft group is loaded by the allocator
+		_, err := s1.datasetManager.Create(context.Background(), &pb.Dataset{Dimension: 2, PartitionCount: 1, ReplicationFactor: 1})
+		verifrt.Assert(err == nil, "create-acknowledged")
+		verifrt.Quiesce()
+	} else {
+		// make the zero group's log durable some other way: a membership entry as delivered after a join
+		verifBootNodes[0].ProposeConfChange(context.Background(), raftpb.ConfChange{Type: raftpb.ConfChangeAddNode, NodeID: 1, Context: []byte("n:1")})
+		verifrt.Quiesce()
+	}
+	first := len(verifBootKinds)
+	for i := 0; i < first; i++ {
+		verifrt.Assert(!verifBootHad[i], "first-start-finds-no-durable-state")
+	}
+	s1.zeroGroup.VerifCancel()
+	verifrt.Quiesce()
+	s2 := NewServer(mk())
+	if err := s2.setup(); err != nil {
+		verifrt.Assert(false, "restart-succeeds")
+		return
+	}
+	verifrt.Quiesce()
+	verifrt.Reach("restarted")
+	verifrt.Assert(len(verifBootKinds) > first, "restart-constructs-raft-nodes")
+	for i := first; i < len(verifBootKinds); i++ {
+		if verifBootHad[i] {
+			verifrt.Assert(verifBootKinds[i] == "RestartNode", "group-with-durable-state-is-restarted-not-bootstrapped")
+		}
+	}
+	verifrt.Reach("boot-end")
+}
